@@ -70,8 +70,8 @@ class Fn:
         n = node if node is not None and hasattr(node, 'lineno') else self.node
         src = getattr(n, '_src', None)
         if src:     # a statement of a helper inlined by sa/normal.py: report its own line
-            return '%s:%d (in %s, inlined at line %d)' % (os.path.relpath(self.file, REPO), src[-1], src[0], n.lineno)
-        return '%s:%d' % (os.path.relpath(self.file, REPO), n.lineno)
+            return '%s:%d (in %s, inlined at line %d)' % (os.path.relpath(self.file, REPO), src[-1], src[0], getattr(n, '_line', n.lineno))
+        return '%s:%d' % (os.path.relpath(self.file, REPO), getattr(n, '_line', n.lineno))
 
     def __repr__(self):
         return '<Fn %s>' % self.construct
